@@ -70,6 +70,20 @@ def depth_docs():
             (doc(opens(255) + "<unterminated a='"), ["depth:unterminated-257"]),
             (doc("</a>" * 300 + nest(255)), ["depth:saturating-closes-first"]),
             (("<!DOCTYPE x [" + "<!ELEMENT a (b)>" * 300 + "]>").encode() + doc(nest(10)), ["depth:doctype-declarations"])]
+    # start tags with quoted attribute values that contain "/>", ">", "&lt;" and the other quote, in SINGLE and in
+    # double quotes, just below / at / above the limit: a scanner that mishandles one kind of quote miscounts them
+    def qopens(k, style):
+        SQ, DQ = chr(39), chr(34)
+        a = {"single": "a=S/>S b=Sx>yS c=S&lt;z/>S d=SDS", "double": "a=D/>D b=Dx>yD c=D&lt;z/>D d=DSD",
+             "mixed": "a=S/>S b=DS/>D c=SD/>S"}[style].replace("S", SQ).replace("D", DQ)
+        return "".join("<n%d %s>" % (i, a) for i in range(k))
+    def closes(k):
+        return "".join("</n%d>" % i for i in reversed(range(k)))
+    for style in ("single", "double", "mixed"):
+        for k in (254, 255, 256, 299):
+            out.append((doc(qopens(k, style) + closes(k)), ["depth:%d-quoted-%s" % (k + 1, style)]))
+    # the really deep probe in the single-quote form (short tags: the model driver's stack is finite too)
+    out.append((doc(("<n a=%s/>%s>" % (chr(39), chr(39))) * 20000 + "</n>" * 20000), ["depth:20001-quoted-single"]))
     return out
 
 
@@ -167,17 +181,39 @@ def differential(rng, n, tier="quick", profile="debug", batch=4000):
     return stats
 
 
-def differential_files(rng, files, profile="debug"):
-    """E57Reader::new on arbitrary FILE bytes vs Model/ReaderFull.reader_new (file layer, UTF-8 check, XML parser
-    model, extractors; float parsing from the implementation's oracle table).
-    files: list of bytes.  returns dict(cases, classes, unsupported, disagreements=[(file, impl, model)])"""
+def wrap_xml(xml):
+    """a minimal file around an XML section (48-byte header + XML, sealed pages)"""
+    from vlib import crc
+    log = bytearray(b"ASTM-E57") + (1).to_bytes(4, "little") + (0).to_bytes(4, "little") + bytes(8) + (48).to_bytes(8, "little") + len(xml).to_bytes(8, "little") + (1024).to_bytes(8, "little") + xml
+    npages = (len(log) + 1019) // 1020
+    log[16:24] = (npages * 1024).to_bytes(8, "little")
+    return crc.paginate(bytes(log))
+
+
+def differential_files(rng, files, profile="debug", with_depth=True):
+    """E57Reader::new on arbitrary FILE bytes vs Model/ReaderFull.reader_new (file layer, UTF-8 check, depth check, XML
+    parser model, extractors; float parsing from the implementation's oracle table).
+    files: list of bytes.  with_depth: the nesting-depth documents of depth_docs() (quoted attribute values in both quote
+    styles around the limit of 256, one 20001-deep probe per quote style) are appended, the very deep ones each in a process
+    of its own so that a stack overflow is attributed to that input only.
+    returns dict(cases, classes, unsupported, disagreements=[(file, impl, model)])"""
     impl = core.ensure_harness(profile)
+    files = list(files)
+    probes = []
+    if with_depth:
+        for xml, tag in depth_docs():
+            (probes if len(xml) > 100000 else files).append(wrap_xml(xml))
     outs = core.run_cases(impl, ["RNEW " + f.hex() for f in files])
+    for f in probes:
+        outs.append(core.run_cases(impl, ["RNEW " + f.hex()], shards=1)[0])
+    files = files + probes
     mlines, parts = [], []
     for f, o in zip(files, outs):
         p = o.split(" ;; ")
         if len(p) != 2:
-            parts.append((o, "")); mlines.append("ECHO bad")
+            # the process died (abort, stack overflow): the model still says what the reader should have answered
+            parts.append(("PROCESS-DIED " + o[:80], "=30:0000000000000000:00000000"))
+            mlines.append("RNEWM =30:0000000000000000:00000000 ;; " + f.hex())
             continue
         parts.append((p[0], p[1]))
         mlines.append("RNEWM " + p[1] + " ;; " + f.hex())
@@ -188,7 +224,7 @@ def differential_files(rng, files, profile="debug"):
         st["classes"][c] = st["classes"].get(c, 0) + 1
         if m == "UNSUPPORTED":
             st["unsupported"] += 1
-            if r == "PANIC":
+            if r == "PANIC" or r.startswith("PROCESS-DIED"):
                 st["disagreements"].append((f, r, m))
         elif r != m:
             st["disagreements"].append((f, r, m))
@@ -251,14 +287,7 @@ def mutate_xml_text(rng, xml):
 
 def differential_depth_files(profile="debug"):
     """the depth documents as complete files: E57Reader::new vs Model/ReaderFull.reader_new (RNEW / RNEWM)"""
-    from vlib import crc
-    files = []
-    for xml, _ in depth_docs():
-        log = bytearray(b"ASTM-E57") + (1).to_bytes(4, "little") + (0).to_bytes(4, "little") + bytes(8) + (48).to_bytes(8, "little") + len(xml).to_bytes(8, "little") + (1024).to_bytes(8, "little") + xml
-        npages = (len(log) + 1019) // 1020
-        log[16:24] = (npages * 1024).to_bytes(8, "little")
-        files.append(crc.paginate(bytes(log)))
-    return differential_files(None, files, profile)
+    return differential_files(None, [], profile, with_depth=True)
 
 
 def run(rep, tier, rng, replay=None):
